@@ -1,8 +1,19 @@
 """C13 — parsing depends only on the text: not on chunking, not on history."""
+import os
 import re
+import shutil
 from .common import Check, iter_joined, translate
 
 FLOAT = re.compile(r"#[0-9a-f]{16}#")
+
+
+# '{', then only white space and comments, then '}'
+CURLY_COMMENT = re.compile(r"\{\s*(//[^\n]*\n|/\*.*?\*/)(\s|//[^\n]*\n|/\*.*?\*/)*\}", re.S)
+
+
+def decode_text(enc):
+    enc = enc[1:] if enc.startswith("=") else enc
+    return re.sub(r"\\(\d+);", lambda m: chr(int(m.group(1))), enc)
 
 
 def norm(s):
@@ -19,8 +30,25 @@ def fields(s):
     return d
 
 
+def sync_accessor(c):
+    """When the check runs against a scratch copy of the repository (VERIF_REPO), make sure the copy has the
+    current read-only accessor file of this check (zygo/verif_c13.go, build tag verif): the harness needs it."""
+    from . import common
+    if not common.ALT:
+        return
+    src = "/repo/zygo/verif_c13.go"
+    dst = os.path.join(common.REPO, "zygo", "verif_c13.go")
+    try:
+        if os.path.exists(src) and (not os.path.exists(dst) or open(src).read() != open(dst).read()):
+            shutil.copyfile(src, dst)
+            c.log("accessor file verif_c13.go copied into the scratch repository")
+    except OSError as ex:
+        c.log("could not copy the accessor file: %s" % ex)
+
+
 def main(argv):
     c = Check("C13", argv)
+    sync_accessor(c)
     rc, log = translate("lexregex", "LexTables.v")
     translator_break = None
     if rc != 0:
@@ -43,6 +71,7 @@ def main(argv):
     corr_fail = []      # implementation differs from the model
     spec_fail = []      # the repaired (strict) model is not chunk independent on a case (contradicts a theorem)
     n = 0
+    n_scan = 0
     kinds = {}
     if cases:
         mout = c.model(cases)
@@ -51,6 +80,15 @@ def main(argv):
                 n += 1
                 kind = inp.split(" ", 1)[0]
                 kinds[kind] = kinds.get(kind, 0) + 1
+                if kind == "tok" and spec != "-":
+                    sp = fields(spec)
+                    uu = sp.get("U", "-:-:0").split(":")
+                    vv = sp.get("V", "none:lexerr").split(":")
+                    if vv[1] == "lexok" and uu[0] in ("finished", "unfinished") and uu[1] not in ("Str", "Rune") and vv[0] in ("fin", "unf"):
+                        n_scan += 1
+                        if (uu[0] == "finished") != (vv[0] == "fin"):
+                            spec_fail.append({"input": inp, "specification": spec,
+                                              "what": "rune scanner `unfinished` and token scanner `tok_verdict` disagree"})
                 if kind in ("tok", "atom"):
                     if impl != model:
                         corr_fail.append({"input": inp, "implementation": impl, "model": model,
@@ -66,6 +104,27 @@ def main(argv):
                     elif not agrees:
                         corr_fail.append({"input": inp, "implementation": impl, "model": model, "what": "parse after history"})
                     continue
+                if kind == "repl":
+                    im = fields(impl)
+                    r, w = im.get("R", ""), im.get("W", "")
+                    agrees = norm("R=%s ;; N=%s" % (r, im.get("N"))) == model
+                    bad = None
+                    if im.get("T") != "prefix":
+                        bad = "the text the REPL reader reports is not the lines it was given (a line was dropped or changed)"
+                    elif r[:1] == "D" and r != w:
+                        bad = "the expressions the REPL reader obtained line by line differ from the same text parsed whole"
+                    elif r[:1] == "P":
+                        bad = "panic escaped from the REPL reader"
+                    elif r == "EOF" and w[:1] != "M":
+                        bad = "the REPL reader kept asking for lines although the text parsed whole does not ask for more input"
+                    elif r == "E" and w[:1] != "E":
+                        bad = "the REPL reader reports an error on a text that parses whole"
+                    if bad:
+                        prop_fail.append({"input": inp, "implementation": impl, "model": model, "agrees_with_model": agrees,
+                                          "kind": "REPL: " + bad, "finding": None})
+                    elif not agrees:
+                        corr_fail.append({"input": inp, "implementation": impl, "model": model, "what": "REPL line reader vs delivery of lines in the model"})
+                    continue
                 if kind != "chunk":
                     continue
                 im = fields(impl)
@@ -78,7 +137,15 @@ def main(argv):
                     corr_fail.append({"input": inp, "implementation": "W=%s ;; P=%s" % (w, im.get("P")), "model": model,
                                       "what": "whole-text parse and every delivery of the pieces vs Model/Reader.v (strict=false)"})
                 if sp.get("W") != sp.get("F"):
-                    spec_fail.append({"input": inp, "specification": spec})
+                    spec_fail.append({"input": inp, "specification": spec, "what": "model: pieces differ from whole"})
+                # the rune scanner (spec of the check) and the token scanner (spec of the token-level theorems)
+                # must agree wherever both have an opinion: outside string / char literals, no hard error
+                uu = sp.get("U", "-:-:0").split(":")
+                vv = sp.get("V", "none:plain").split(":")
+                if w[:1] != "E" and uu[0] in ("finished", "unfinished") and uu[1] not in ("Str", "Rune") and vv[0] in ("fin", "unf"):
+                    if (uu[0] == "finished") != (vv[0] == "fin"):
+                        spec_fail.append({"input": inp, "specification": spec,
+                                          "what": "rune scanner `unfinished` and token scanner `tok_verdict` disagree"})
                 # (i) pieces = whole
                 if deliveries[-1] != w:
                     fid = None
@@ -94,6 +161,8 @@ def main(argv):
                                       "kind": "panic escaped from the parser"})
                 elif st == "D" and u[0] == "unfinished":
                     fid = None
+                    if agrees and u[1] == "Code" and CURLY_COMMENT.search(decode_text(inp.split(" ")[1])):
+                        fid = "curly-comment-drop"
                     prop_fail.append({"input": inp, "whole": w, "scanner": sp.get("U"), "finding": fid, "agrees_with_model": agrees,
                                       "kind": "an unfinished prefix (%s open, bracket depth %s) is accepted as complete: no more-input request" % (u[1], u[2])})
                 elif st == "M" and u[0] == "finished":
@@ -108,6 +177,7 @@ def main(argv):
                                       "kind": "the parse ran to the end of the text but an atom/token was left in the lexer"})
     c.coverage["compared"] = n
     c.coverage["compared_by_kind"] = kinds
+    c.coverage["scanner_consistency_cases"] = n_scan
     c.coverage["traces_validated_against_impl"] = n
     # ---- decide ----
     unexplained = []
@@ -134,7 +204,7 @@ def main(argv):
             c.violation({"kind": "correspondence: the implementation differs from the Coq model (no input violating the property found)",
                          "inputs": [f["input"] for f in corr_fail[:10]], "cases": corr_fail[:10], "count": len(corr_fail)}, no_input=True, tag="corr")
         elif spec_fail:
-            c.violation({"kind": "the model is not chunk independent on a case: theorem chunk_independent is contradicted (model runner / extraction problem)",
+            c.violation({"kind": "the specifications disagree on a case (model pieces vs whole: theorem chunk_independent contradicted; or the rune scanner vs the token scanner of the token-level theorems)",
                          "cases": spec_fail[:5]}, no_input=True, tag="spec")
         elif c.proof_break:
             c.violation({"kind": "proof obligation no longer checks", "detail": c.proof_break}, no_input=True, tag="proof")
